@@ -20,6 +20,9 @@ RULE = (
     'categories) columns for the plain variable, C(v), T(v); labels read twice and per term; the call followed '
     'by another term; later frames after the caller rebound lv, with an ordered Categorical declaring another '
     'order, and with one unseen level in silent mode. '
+    'Later: near-duplicate and number-or-text level sets, levels= not covering the data, 1100-row columns, '
+    'nested boxes with inner levels, full coding with reference and levels, subtractions in the swap pool, '
+    'level lists reversed by the caller. '
 )
 ASSUMPTIONS = ["rank decisions by SVD with a gap check", "the same encoding object may be used for several factors (C(f, enc) + C(g, enc))"]
 
